@@ -550,7 +550,8 @@ impl FallbackHelper for i128 {
 
     #[inline]
     fn shift_lo_up(self) -> i128 {
-        debug_assert!(self >> 64 == 0);
+        // the carry out of the middle column of a signed product can be -1
+        debug_assert!(self >> 64 == 0 || self >> 64 == -1);
         self << 64
     }
 
